@@ -27,8 +27,39 @@ def log(*a):
 
 # ----------------------------------------------------------------------------- build
 
+REPO_LOCK = "/var/lock/verif-repo.lock"
+
+
+class repo_lock:
+    """Advisory lock on /repo's working tree: builds hold it shared, bin/seedtest (which patches /repo for the duration of
+    its checks) holds it exclusively and tells the checks it runs so (VERIF_REPO_LOCK_HELD).  Best effort: no lock file, no lock."""
+
+    def __init__(self, exclusive=False):
+        self.exclusive, self.f = exclusive, None
+
+    def __enter__(self):
+        if os.environ.get("VERIF_REPO_LOCK_HELD"):
+            return self
+        try:
+            import fcntl
+            self.f = open(REPO_LOCK, "a")
+            fcntl.flock(self.f, fcntl.LOCK_EX if self.exclusive else fcntl.LOCK_SH)
+        except OSError:
+            self.f = None
+        return self
+
+    def __exit__(self, *a):
+        if self.f:
+            self.f.close()
+
+
 def build_vexec(race=False):
     """(Re)build the executor from /repo's current working tree with hooks on."""
+    with repo_lock():
+        return _build_vexec(race)
+
+
+def _build_vexec(race):
     os.makedirs(os.path.join(WORK, "bin"), exist_ok=True)
     # keep go.sum in step with the repository's
     try:
